@@ -6,6 +6,7 @@ import (
 	"bytes"
 	"fmt"
 	"os"
+	"strings"
 	"testing"
 
 	"github.com/boombuler/barcode"
@@ -186,6 +187,43 @@ func genAztecCase(t *rapid.T) AztecCase {
 	return c
 }
 
+// checkAztecEmptyPinned: the empty payload is a recorded finding (F11: the mode message's "data words - 1" field wraps,
+// so it declares 64 / 2048 data words). Exactly that symptom is excluded - anything ELSE that is wrong with the symbol of
+// an empty payload (bullseye, orientation marks, mode message not Reed-Solomon valid, layer field that disagrees with
+// the symbol size, a size other than the requested one) is a different violation and is reported.
+func checkAztecEmptyPinned(t TB, c AztecCase) {
+	const P, K = "C03", "aztec-roundtrip"
+	bc, err, pv := aztecEncode(c)
+	if pv != nil {
+		failf(t, P, K, c, "%v", pv)
+	}
+	if err != nil || nilBarcode(bc) {
+		return
+	}
+	m, merr := matrix2D(bc)
+	if merr != nil {
+		failf(t, P, K, c, "empty payload: %v", merr)
+	}
+	if aztecLayersValid(c.Layers) && c.Layers != 0 {
+		compact, layers := c.Layers < 0, c.Layers
+		if compact {
+			layers = -layers
+		}
+		if want := ref.AztecSize(compact, layers); len(m) != want {
+			failf(t, P, K, c, "empty payload: explicit layer request %d gives a %dx%d symbol, want %dx%d", c.Layers, len(m), len(m), want, want)
+		}
+	}
+	_, derr := ref.DecodeAztec(m)
+	if derr == nil {
+		return // the recorded finding no longer shows (TestC03KnownFindings reports that)
+	}
+	msg := derr.Error()
+	if strings.HasPrefix(msg, "mode message declares 64 data words") || strings.HasPrefix(msg, "mode message declares 2048 data words") || strings.HasPrefix(msg, "data word 0 is all zeros or all ones") {
+		return // the recorded symptom
+	}
+	failf(t, P, K, c, "empty payload: beyond the recorded finding F11 (wrapped data-word count) the symbol is wrong in another way: %s", msg)
+}
+
 // checkAztecRoundTrip returns the reader's result (nil when rejected or excluded).
 func checkAztecRoundTrip(t TB, st *Stats, c AztecCase) *ref.AztecResult {
 	noteCase("C03", "aztec-roundtrip", c)
@@ -194,6 +232,7 @@ func checkAztecRoundTrip(t TB, st *Stats, c AztecCase) *ref.AztecResult {
 		if st != nil {
 			st.Excluded("F11-aztec-empty-payload")
 		}
+		checkAztecEmptyPinned(t, c)
 		return nil
 	}
 	if n := len(c.Payload); n >= 5 && n <= 300 {
